@@ -391,10 +391,66 @@ pub fn run_cfg(w: &mut World, bs: &Base, c: &Cfg, cx: &mut Cx) {
                 let all_avail: u128 = (1..=3).map(|i| epoch_of(w, hub, i).unwrap().available.iter().map(|a| a.amount.u128()).sum::<u128>()).sum();
                 let held = w.native_balance(&hub.distributor, WHALE);
                 cx.check("distributor.holds_all_available", held >= all_avail, || format!("distributor holds {} uwhale but the epochs' available amounts add up to {}", held, all_avail));
+                // ---- and a fourth one: nothing new has been earned, so epoch 3 may well be an epoch without any fees; epoch 2
+                // now leaves the two-epoch window and what it still has available moves into epoch 4
+                w.advance(DAY_NS, 1);
+                let e2_avail: u128 = epoch_of(w, hub, 2).unwrap().available.iter().map(|a| a.amount.u128()).sum();
+                let e3_empty = tot3 == 0;
+                let dist0 = w.native_balance(&hub.distributor, WHALE);
+                if w.exec(MALLORY, &hub.distributor, &DistExec::NewEpoch {}, &[]).is_ok() {
+                    cx.count("newepoch:fourth");
+                    if e3_empty && e2_avail > 0 {
+                        cx.count("newepoch:fourth_after_an_epoch_without_fees");
+                    }
+                    let got = w.native_balance(&hub.distributor, WHALE) - dist0;
+                    let tot4: u128 = epoch_of(w, hub, 4).unwrap().total.iter().map(|a| a.amount.u128()).sum();
+                    cx.check("epoch.total_is_forwarded_plus_rolled_over", tot4 == got + e2_avail, || format!("epoch 4 total {} but the distributor received {} and epoch 2, which left the window, had {} available (epoch 3 total {})", tot4, got, e2_avail, tot3));
+                    let e2_after: u128 = epoch_of(w, hub, 2).unwrap().available.iter().map(|a| a.amount.u128()).sum();
+                    cx.check("epoch.expired_epoch_is_emptied", e2_after == 0, || format!("epoch 2 left the grace window but still has {} available", e2_after));
+                }
             }
         }
     }
 }
+
+/// More registered vaults than one default page (10) of the vault factory's listing, up to the 30 the collector asks for:
+/// `total` vaults, every one owing protocol fees above the collection threshold; NewEpoch must collect from all of them.
+pub fn run_many_vaults(w: &mut World, bs: &Base, total: usize, cx: &mut Cx) {
+    w.restore(&bs.snap);
+    let hub = &bs.hub;
+    let fees = Fee3::new(ONE18 / 100, 0, 0);
+    let mut vaults: Vec<VH> = vec![bs.vault_w.clone(), bs.vault_a.clone()];
+    for i in 0..total.saturating_sub(2) {
+        let denom = format!("uv{}{}", (b'a' + (i / 26) as u8) as char, (b'a' + (i % 26) as u8) as char);
+        w.mint_native(ALICE, 10_000_000_000, &denom);
+        let v = vault_handle(w, hub, native(&denom), fees);
+        vault_deposit(w, &v, ALICE, 1_000_000_000).expect("many vaults: deposit");
+        vaults.push(v);
+    }
+    for v in &vaults {
+        vault_fee_state(w, v, 2);
+    }
+    let pending_before: Vec<u128> = vaults.iter().map(|v| crate::scn_vault::vault_pending(w, v, false)).collect();
+    w.advance(DAY_NS, 1);
+    let r = w.exec(MALLORY, &hub.distributor, &DistExec::NewEpoch {}, &[]);
+    cx.count("many_vaults:case");
+    match r {
+        Ok(_) => {
+            cx.count("many_vaults:newepoch_ok");
+            let left: Vec<(usize, u128)> = vaults.iter().enumerate().map(|(i, v)| (i, crate::scn_vault::vault_pending(w, v, false))).filter(|(_, p)| *p != 0).collect();
+            // (known finding KF-C10-page-of-30: the collector asks the factory for ONE page of at most 30 vaults, so with more
+            // than 30 registered exactly the ones beyond that page, in the factory's key order, are left out; any other number
+            // of uncollected vaults is a different failure)
+            let sig = if total > 30 && left.len() == total - 30 { "only-the-first-page-of-30" } else { "" };
+            cx.check_sig("collect.every_registered_vault_is_collected", sig, left.is_empty() && pending_before.iter().all(|p| *p > 1000), || {
+                format!("{} vaults registered, each owing {:?} before NewEpoch: {} of them still owe fees after it, e.g. vault #{} over {:?} owes {}", total, pending_before.iter().min(), left.len(), left.first().map(|x| x.0).unwrap_or(0), left.first().map(|x| vaults[x.0].asset.clone()), left.first().map(|x| x.1).unwrap_or(0))
+            });
+        }
+        Err(e) => cx.check("newepoch.fails_only_when_a_step_fails", false, || format!("NewEpoch with {} registered vaults failed: {}", total, e.msg())),
+    }
+}
+
+pub const MANY_VAULTS: [usize; 6] = [9, 10, 11, 12, 30, 31];
 
 pub fn run(tier: &str, seed: u64) -> i32 {
     let mut ev = Evidence::new("C10", tier, seed);
@@ -425,6 +481,16 @@ pub fn run(tier: &str, seed: u64) -> i32 {
             &[0, m / 2, m - 1],
         );
     }
+    {
+        let res = par_index_with(MANY_VAULTS.len(), 3, World::new, |i, cx, w| run_many_vaults(w, &base, MANY_VAULTS[i], cx));
+        ev.add_grid_result(
+            "many-registered-vaults",
+            "9, 10, 11, 12, 30 and 31 registered vaults (the factory's default page holds 10, the collector asks for 30), each owing fees above the threshold",
+            res,
+            &|i| json!({"many_vaults": MANY_VAULTS[i]}),
+            &[0, 2, 5],
+        );
+    }
     ev.add_grid_result(
         "pipeline-configurations",
         "full product: pair A/B fee state {0,<1000,>1000 both sides,mixed}^2 x vault W/A fee state {0,500,5000}^2 x take rate {inactive,0,1e-18,1%,50%,1-1e-18} x routes {both,none,A,B} x fault {none, pair A swaps disabled, A hop exceeds max spread, B hop exceeds max spread, none with a 1e21 balance}",
@@ -443,6 +509,20 @@ pub fn run(tier: &str, seed: u64) -> i32 {
 }
 
 pub fn replay(doc: &Value) -> bool {
+    if let Some(total) = doc["point"]["many_vaults"].as_u64() {
+        let base = build_base();
+        let mut w = World::new();
+        let mut cx = Cx { verbose: true, ..Default::default() };
+        run_many_vaults(&mut w, &base, total as usize, &mut cx);
+        let want = doc["oracle"].as_str().unwrap_or("");
+        let mut rep = false;
+        for v in &cx.violations {
+            println!("  !! {} [{}]: {}", v.oracle, v.sig, v.detail);
+            rep |= v.oracle == want;
+        }
+        println!("reproduced={rep}");
+        return rep;
+    }
     let c = cfg_from(&doc["point"]);
     let base = match doc["point"]["distribution_asset"].as_str() {
         Some(d) => build_base_with(d),
